@@ -135,11 +135,14 @@ def poissonMat (P : Nat) (lg : α → α) (M : List (Row α)) : List (List α) :
     Rsa.Gen.C01.poissonEntry (poissonKernel P lg b b) (poissonKernel P lg a a)
       (poissonKernel P lg a b) (poissonKernel P lg b a)))
 
-/-- `ma /= sqrt(einsum('ij,ij->i', ma, ma))` on the centred row -/
+/-- `ma /= sqrt(einsum('ij,ij->i', ma, ma))` on the centred row; what is done with an element
+    and its row's norm is the leaf `corrUnit`, regenerated from the statement(s) between
+    `_parse_input` and the Gram matrix of `calc_rdm_correlation` (round 5: an additive constant
+    in the norm changes the leaf and breaks `corr_algo_eq_spec`) -/
 def unitRow (P : Nat) (sqrt : α → α) (x : Row α) : Row α :=
   let ma := centreC P x
   let nrm := sqrt (dotP P ma ma)
-  fun c => ma c / nrm
+  fun c => Rsa.Gen.C01.corrUnit (ma c) nrm
 
 /-- `1 - einsum('ik,jk', ma, ma)` -/
 def corrMat (P : Nat) (sqrt : α → α) (M : List (Row α)) : List (List α) :=
